@@ -340,6 +340,31 @@ def explore(ck, n, em, np, xrun=True):
                 ck.violation("other", f"snell({nn!r},{nn!r},{th!r}) = {t2!r} (array call {ta.tolist()!r}): identical media must transmit unchanged", cse)
             if th < 90.0 and not (abs(float(Rv)) <= 1e-7 and abs(float(Rh)) <= 1e-7):
                 ck.violation("other", f"fresnel({nn!r},{nn!r},{th!r}) = ({Rv!r},{Rh!r}), identical media reflect nothing", cse)
+    # ---------------- array n2 mixing real and complex refractive indices: every element as the scalar call
+    # (no total reflection: n1 <= Re n2, where the real and the complex formula agree for Im n2 = 0)
+    for _ in range(max(n // 15, 6)):
+        n1 = rng.uniform(0.8, 1.2)
+        th = rng.choice([0.0, 30.0, rng.uniform(0, 89)])
+        elems = [rng.uniform(1.3, 3.0), complex(rng.uniform(1.3, 3.0), numlib.loguniform(rng, 1e-3, 3.0)),
+                 complex(rng.uniform(1.3, 2.0), 0.0), complex(0.2 + 1.1, 3.0), rng.uniform(1.3, 3.0)]
+        rng.shuffle(elems)
+        arr = np.array(elems[:rng.randint(2, 5)], dtype=complex)
+        if not (np.any(arr.imag != 0) and np.any(arr.imag == 0)):
+            arr = np.array([1.5, complex(1.4, 0.7)], dtype=complex)
+        cm = {"fn": "snell/mixed-array", "args": [n1, [[float(z.real), float(z.imag)] for z in arr], th]}
+        ck.case(key=("snell-mixed", n1, th, float(arr[0].real)), kind="snell/mixed-array")
+        try:
+            with np.errstate(all="ignore"):
+                got = np.asarray(em.snell(n1, arr, th), dtype=float)
+                each = np.array([float(np.real(em.snell(n1, (float(z.real) if z.imag == 0 else complex(z)), th))) for z in arr])
+                Rv, Rh = em.fresnel(n1, arr, th)
+        except Exception as e:          # noqa: BLE001
+            ck.violation("other", f"snell/fresnel raised {type(e).__name__} for an array n2 mixing real and complex indices: {str(e)[:80]}", cm)
+            continue
+        if got.shape != each.shape or np.any(np.abs(got - each) > 1e-7 * np.maximum(np.abs(each), 1.0)) or np.any(np.isnan(got) != np.isnan(each)):
+            ck.violation("other", f"snell(n1, array n2 mixing real and complex indices) = {got.tolist()}, element-wise scalar calls give {each.tolist()}", cm)
+        if np.any(np.abs(np.asarray(Rv)) > 1 + 1e-9) or np.any(np.abs(np.asarray(Rh)) > 1 + 1e-9):
+            ck.violation("other", f"fresnel with a mixed real/complex array n2: |R| exceeds 1: {np.abs(np.asarray(Rv)).tolist()}, {np.abs(np.asarray(Rh)).tolist()}", cm)
     # ---------------- snell / fresnel
     for _ in range(max(n // 2, 20)):
         n1 = numlib.loguniform(rng, 0.5, 4.0)
